@@ -11,6 +11,7 @@ EXPLANATION = (
     "formulas are 10**6*ppq*s/mpq; (F10) all 7 conversions round before int; (F5e-pairing) both readers pair by "
     "(channel, pitch) with the zero-velocity note-on rule; (ID-ORDER) the id sort key; (F6-kinds) every message kind the "
     "exporter writes is handled by the importer; (F8a) library names resolve."
+    ' (TEMPO-first) the set_tempo message is written on the first emitted track, whatever its number.'
 )
 NOT_DECIDED = [
     "equality of the loaded performance with the saved one (run-time values)", "tick rounding at exactly .5",
